@@ -36,6 +36,30 @@ Proof. exact parse_bool_accepts. Qed.
 Theorem C09_char_encoding_is_utf8 : forall c, is_scalar c = true -> utf8_valid (utf8_encode c) = true.
 Proof. exact utf8_encode_valid. Qed.
 
+(* f32 / f64 (parsed by [parse_f32] / [parse_f64], outside the [sty] universe):
+   CORRECT ROUNDING.  For a positive decimal num/den the significand m and
+   exponent k the parser settles on satisfy: A/B is exactly (num/den)/2^k; m is
+   the integer nearest to A/B, ties to the even one; and k is the exponent of
+   the binade of num/den (2^(p-1) <= m <= 2^p) or the least exponent of the
+   format (subnormals).  The bit pattern is (k - emin) * 2^(p-1) + m, saturated
+   at infinity.  (Not proved: the grammar's agreement with dec2flt::parse and
+   parse (print v) = v; both are compared on every run.) *)
+Theorem C09_float_nearest_ties_to_even : forall fm num den,
+  (0 < num)%Z -> (0 < den)%Z -> (1 <= f_p fm)%Z ->
+  let '(k, A, B) := scaled fm num den in
+  let m := rne A B in
+  (0 <= A)%Z /\ (0 < B)%Z /\
+  (if (0 <=? k)%Z then A = num /\ B = (den * 2 ^ k)%Z else A = (num * 2 ^ (- k))%Z /\ B = den) /\
+  (2 * Z.abs (A - m * B) <= B)%Z /\ ((2 * Z.abs (A - m * B))%Z = B -> Z.even m = true) /\
+  (k = f_emin fm \/ (2 ^ (f_p fm - 1) <= m <= 2 ^ f_p fm)%Z).
+Proof. exact round_ratio_correct. Qed.
+
+Theorem C09_float_bits : forall fm num den,
+  round_ratio fm num den =
+  let '(k, A, B) := scaled fm num den in
+  Z.min ((k - f_emin fm) * 2 ^ (f_p fm - 1) + rne A B) ((2 ^ f_w fm - 1) * 2 ^ (f_p fm - 1)).
+Proof. exact round_ratio_scaled. Qed.
+
 (* ---- clause 2: path segments ---- *)
 
 (* any legal percent-encoding of any deliverable text is decoded back to it *)
@@ -231,6 +255,22 @@ Example C09_ex_typed_wildcard :
   = [48;48;49;49;50;50;51;51;45;52;52;53;53;45;54;54;55;55;45;56;56;57;57;45;97;97;98;98;99;99;100;100;101;101;102;102].
 Proof. vm_compute. repeat split. Qed.
 
+(* f32: 1.0; the tie 16777217 -> 16777216 (even); just above the midpoint between 1 and 1+2^-23
+   (1.000000059604644775390625000000000001) -> 1+2^-23, the double-rounding trap; -0.0; 1e-45; 4e38 -> inf;
+   f64: 0.1 *)
+Example C09_ex_floats :
+  parse_f32 [49;46;48] = Some 1065353216%N /\
+  parse_f32 [49;54;55;55;55;50;49;55] = Some 1266679808%N /\
+  parse_f32 [49;46;48;48;48;48;48;48;48;53;57;54;48;52;54;52;52;55;55;53;51;57;48;54;50;53;
+             48;48;48;48;48;48;48;48;48;48;48;49] = Some 1065353217%N /\
+  parse_f32 [49;46;48;48;48;48;48;48;48;53;57;54;48;52;54;52;52;55;55;53;51;57;48;54;50;53] = Some 1065353216%N /\
+  parse_f32 [45;48;46;48] = Some 2147483648%N /\
+  parse_f32 [49;101;45;52;53] = Some 1%N /\
+  parse_f32 [52;101;51;56] = Some 2139095040%N /\
+  parse_f64 [48;46;49] = Some 4591870180066957722%N /\
+  parse_f32 [46] = None /\ parse_f32 [49;101] = None.
+Proof. vm_compute. repeat split. Qed.
+
 (* u8 extremes and one past; "+255", "0255" accepted; "-0" refused for u8, accepted for i8 *)
 Example C09_ex_ints :
   parse_int false 8 [50; 53; 53] = Some 255%Z /\ parse_int false 8 [50; 53; 54] = None /\
@@ -284,6 +324,8 @@ Print Assumptions C09_int_accept_set.
 Print Assumptions C09_char_accept_set.
 Print Assumptions C09_bool_accept_set.
 Print Assumptions C09_char_encoding_is_utf8.
+Print Assumptions C09_float_nearest_ties_to_even.
+Print Assumptions C09_float_bits.
 Print Assumptions C09_segment_decoded.
 Print Assumptions C09_path_value_delivered.
 Print Assumptions C09_typed_sequence_delivered_iff.
